@@ -32,10 +32,11 @@ type OutParam struct {
 }
 
 var outParams = map[string]OutParam{
-	"oidc.ParseToken":     {1, false},
-	"ParseToken":          {1, false},
-	"oidc.CheckSignature": {3, true},
-	"CheckSignature":      {3, true},
+	"oidc.ParseToken":            {1, false},
+	"ParseToken":                 {1, false},
+	"oidc.CheckSignature":        {3, true},
+	"CheckSignature":             {3, true},
+	"ValidateRefreshTokenScopes": {1, true},
 }
 
 type FuncSpec struct {
@@ -53,10 +54,11 @@ type FuncSpec struct {
 }
 
 type tr struct {
-	spec   *FuncSpec
-	fset   *token.FileSet
-	unsup  []string
-	indent int
+	spec       *FuncSpec
+	fset       *token.FileSet
+	unsup      []string
+	indent     int
+	errInScope bool // inside a `.error err =>` branch
 }
 
 func (t *tr) bad(reason string, n ast.Node) string {
@@ -358,7 +360,7 @@ func (t *tr) call(c *ast.CallExpr) string {
 	}
 	if sel, ok := fun.(*ast.SelectorExpr); ok {
 		m := sel.Sel.Name
-		if id, ok := sel.X.(*ast.Ident); ok && (id.Name == "oidc" || id.Name == "op" || id.Name == "crypto" || id.Name == "httphelper" || id.Name == "client") {
+		if id, ok := sel.X.(*ast.Ident); ok && (id.Name == "oidc" || id.Name == "op" || id.Name == "crypto" || id.Name == "httphelper") {
 			// call of a (translated or hand-modelled) package function
 			a := t.argsOf(full, c.Args)
 			if a == "" {
@@ -504,10 +506,33 @@ func (t *tr) ret(r *ast.ReturnStmt) string {
 			// return f(...) : tail call with the same result type
 			return t.expr(r.Results[0])
 		}
-		if len(r.Results) != 2 {
-			return t.bad("return arity", r)
+		if len(r.Results) > 2 {
+			// (v1, ..., vn, err)
+			last := r.Results[len(r.Results)-1]
+			vals := r.Results[:len(r.Results)-1]
+			lastIsNil := false
+			if id, ok := last.(*ast.Ident); ok && (id.Name == "nil" || (id.Name == "err" && !t.errInScope)) {
+				lastIsNil = true // `err` outside an error branch is known to be nil
+			}
+			if lastIsNil {
+				var vs []string
+				for _, v := range vals {
+					vs = append(vs, t.expr(v))
+				}
+				return "(.ok (" + strings.Join(vs, ", ") + "))"
+			}
+			allNil := true
+			for _, v := range vals {
+				if !t.isNilValue(v) {
+					allNil = false
+				}
+			}
+			if allNil {
+				return "(.error " + t.errValue(last) + ")"
+			}
+			return t.bad("return of values and error", r)
 		}
-		if id, ok := r.Results[1].(*ast.Ident); ok && id.Name == "nil" {
+		if id, ok := r.Results[1].(*ast.Ident); ok && (id.Name == "nil" || (id.Name == "err" && !t.errInScope)) {
 			if t.spec.WrapOk != "" {
 				return "(.ok (" + t.spec.WrapOk + " " + t.expr(r.Results[0]) + "))"
 			}
@@ -590,6 +615,46 @@ func (t *tr) block(stmts []ast.Stmt, k cont) string {
 		}
 		return t.bad("expression statement", x)
 	case *ast.AssignStmt:
+		// x, ok := e.(T)   type assertion: the model value carries a flag `is_T`
+		if len(x.Lhs) == 2 && len(x.Rhs) == 1 {
+			if ta, ok := x.Rhs[0].(*ast.TypeAssertExpr); ok && ta.Type != nil {
+				tn := exprString(ta.Type)
+				if i := strings.LastIndex(tn, "."); i >= 0 {
+					tn = tn[i+1:]
+				}
+				v, okv := exprString(x.Lhs[0]), exprString(x.Lhs[1])
+				e := t.expr(ta.X)
+				return "let " + v + " := " + e + ";\n" + t.pad() + "let " + okv + " := (" + e + ").is_" + tn + ";\n" + t.pad() + rest()
+			}
+		}
+		// a, b, err := f(...)   followed by   if err != nil { ... }
+		if len(x.Lhs) > 2 && len(x.Rhs) == 1 && exprString(x.Lhs[len(x.Lhs)-1]) == "err" && len(stmts) > 1 {
+			if ifs, ok := stmts[1].(*ast.IfStmt); ok && ifs.Init == nil && isErrNotNil(ifs.Cond) && ifs.Else == nil {
+				var names []string
+				for _, l := range x.Lhs[:len(x.Lhs)-1] {
+					names = append(names, t.ident(exprString(l)))
+				}
+				cont := memo(func() string { return t.block(stmts[2:], k) })
+				t.indent++
+				saved := t.errInScope
+				t.errInScope = true
+				errBranch := t.block(ifs.Body.List, cont)
+				t.errInScope = saved
+				t.indent--
+				return "(match " + t.expr(x.Rhs[0]) + " with\n" + t.pad() + "| .error err => " + errBranch + "\n" + t.pad() + "| .ok (" + strings.Join(names, ", ") + ") =>\n" + t.pad() + cont() + ")"
+			}
+		}
+		// x, err = f(...)   followed by   return ..., err      (error propagated by the return itself)
+		if len(x.Lhs) == 2 && len(x.Rhs) == 1 && exprString(x.Lhs[1]) == "err" && len(stmts) > 1 {
+			if ret, ok := stmts[1].(*ast.ReturnStmt); ok && len(ret.Results) >= 2 && exprString(ret.Results[len(ret.Results)-1]) == "err" {
+				v := t.ident(exprString(x.Lhs[0]))
+				saved := t.errInScope
+				t.errInScope = false
+				okB := t.ret(ret)
+				t.errInScope = saved
+				return "(match " + t.expr(x.Rhs[0]) + " with\n" + t.pad() + "| .error err => (.error err)\n" + t.pad() + "| .ok " + v + " =>\n" + t.pad() + okB + ")"
+			}
+		}
 		// x, err := f(...)   followed by   if err != nil { ... }
 		if len(x.Lhs) == 2 && len(x.Rhs) == 1 && exprString(x.Lhs[1]) == "err" {
 			call, ok := x.Rhs[0].(*ast.CallExpr)
@@ -606,7 +671,10 @@ func (t *tr) block(stmts []ast.Stmt, k cont) string {
 					}
 					cont := memo(func() string { return t.block(stmts[2:], k) })
 					t.indent++
+					saved := t.errInScope
+					t.errInScope = true
 					errBranch := t.block(ifs.Body.List, cont)
+					t.errInScope = saved
 					t.indent--
 					return "(match " + t.expr(call) + " with\n" + t.pad() + "| .error err => " + errBranch + "\n" + t.pad() + "| .ok " + t.okPattern(call, v) + " =>\n" + t.pad() + cont() + ")"
 				}
@@ -623,7 +691,10 @@ func (t *tr) block(stmts []ast.Stmt, k cont) string {
 			if ifs, ok := stmts[1].(*ast.IfStmt); ok && ifs.Init == nil && isErrNotNil(ifs.Cond) && ifs.Else == nil {
 				cont := memo(func() string { return t.block(stmts[2:], k) })
 				t.indent++
+				saved := t.errInScope
+				t.errInScope = true
 				errBranch := t.block(ifs.Body.List, cont)
+				t.errInScope = saved
 				t.indent--
 				return "(match " + t.expr(x.Rhs[0]) + " with\n" + t.pad() + "| .error err => " + errBranch + "\n" + t.pad() + "| .ok " + t.okPattern(x.Rhs[0], "_") + " =>\n" + t.pad() + cont() + ")"
 			}
@@ -642,7 +713,10 @@ func (t *tr) block(stmts []ast.Stmt, k cont) string {
 			as, ok := x.Init.(*ast.AssignStmt)
 			if ok && len(as.Lhs) == 1 && exprString(as.Lhs[0]) == "err" && isErrNotNil(x.Cond) {
 				t.indent++
+				saved := t.errInScope
+				t.errInScope = true
 				errBranch := t.block(x.Body.List, cont)
+				t.errInScope = saved
 				var okBranch string
 				if x.Else == nil {
 					okBranch = cont()
@@ -667,6 +741,17 @@ func (t *tr) block(stmts []ast.Stmt, k cont) string {
 		return "(if " + t.expr(x.Cond) + " then\n" + t.pad() + "  " + thenB + "\n" + t.pad() + "else\n" + t.pad() + elseB + ")"
 	case *ast.SwitchStmt:
 		return t.switchStmt(x, rest)
+	case *ast.RangeStmt:
+		// for _, v := range L { if COND(v) { return V } }   ->   if L.any (fun v => COND) then V else rest
+		if len(x.Body.List) == 1 && x.Value != nil {
+			if ifs, ok := x.Body.List[0].(*ast.IfStmt); ok && ifs.Init == nil && ifs.Else == nil && len(ifs.Body.List) == 1 {
+				if ret, ok := ifs.Body.List[0].(*ast.ReturnStmt); ok {
+					v := exprString(x.Value)
+					return "(if (Go.any " + t.expr(x.X) + " (fun " + v + " => " + t.expr(ifs.Cond) + ")) then\n" + t.pad() + "  " + t.ret(ret) + "\n" + t.pad() + "else\n" + t.pad() + rest() + ")"
+				}
+			}
+		}
+		return t.bad("range loop", x)
 	}
 	return t.bad(fmt.Sprintf("statement %T", s), s)
 }
